@@ -14,17 +14,17 @@ const sigStopBlocks = "stop-blocks-for-nat-timeout"
 
 // phase kinds
 const (
-	phEstablish  = "establish"  // every session: one paced datagram (echo expected)
-	phBurst      = "burst"      // every session: N datagrams back to back (queued uplink)
-	phStream     = "stream"     // async: every session keeps sending until the scenario ends
-	phFlood      = "flood"      // async: the destinations keep sending replies to every session
-	phPauseShort = "pauseShort" // no client traffic for a fraction of the NAT timeout
-	phPauseEvict = "pauseEvict" // no client traffic for >= NAT timeout + slack: sessions must be gone
-	phResend     = "resend"     // every session: one paced datagram again
-	phBlockInit  = "blockInit"  // new sessions whose initialisation / first pack blocks in the resolver
-	phReject     = "reject"     // new sessions whose first datagram the router rejects
-	phFailInit   = "failInit"   // new sessions whose initialisation fails (endpoint or target name does not resolve)
-	phKeepAlive  = "keepAlive"  // every session keeps sending with gaps of natTimeout/5 for 1.5 x natTimeout: it must keep its relay socket
+	phEstablish  = "establish"   // every session: one paced datagram (echo expected)
+	phBurst      = "burst"       // every session: N datagrams back to back (queued uplink)
+	phStream     = "stream"      // async: every session keeps sending until the scenario ends
+	phFlood      = "flood"       // async: the destinations keep sending replies to every session
+	phPauseShort = "pauseShort"  // no client traffic for a fraction of the NAT timeout
+	phPauseEvict = "pauseEvict"  // no client traffic for >= NAT timeout + slack: sessions must be gone
+	phResend     = "resend"      // every session: one paced datagram again
+	phBlockInit  = "blockInit"   // new sessions whose initialisation / first pack blocks in the resolver
+	phReject     = "reject"      // new sessions whose first datagram the router rejects
+	phFailInit   = "failInit"    // new sessions whose initialisation fails (endpoint or target name does not resolve)
+	phKeepAlive  = "keepAlive"   // every session keeps sending with gaps of natTimeout/5 for 1.5 x natTimeout: it must keep its relay socket
 	phExpiry     = "expiryProbe" // one datagram per session timed around the instant the idle timeout fires (packet arrives while the session is torn down)
 )
 
@@ -49,6 +49,9 @@ type plan struct {
 	Phases         []phase `json:"phases"`
 	// Stop is issued after the last phase, while the async phases are still running.
 	StopDelayMs int `json:"stopDelayMs"` // delay between the last phase and Stop
+	// HandshakeMs: when the last phase left SOCKS5 handshakes of new sessions held by the upstream, they
+	// are released this long after Stop was issued (scripted in-flight work: Stop may take that much longer).
+	HandshakeMs int `json:"handshakeMs"`
 }
 
 var natProtos = []string{"socks5", "none", "direct"}
@@ -88,7 +91,7 @@ func drawPlan(rt *rapid.T) *plan {
 		if evict {
 			p.NATTimeoutMs = rapid.SampledFrom([]int{300, 400, 500, 700, 1000, 2000}).Draw(rt, "natTimeoutEvict")
 		} else {
-			p.NATTimeoutMs = rapid.SampledFrom([]int{2000, 2500}).Draw(rt, "natTimeoutStop")
+			p.NATTimeoutMs = rapid.SampledFrom([]int{5000, 6000}).Draw(rt, "natTimeoutStop")
 		}
 	}
 	drawPhase := func(alphabet []string) phase {
@@ -155,6 +158,7 @@ func drawPlan(rt *rapid.T) *plan {
 		}
 	}
 	p.StopDelayMs = rapid.SampledFrom([]int{0, 0, 1, 5, 30}).Draw(rt, "stopDelay")
+	p.HandshakeMs = rapid.SampledFrom([]int{100, 300, 600}).Draw(rt, "handshakeMs")
 	return p
 }
 
